@@ -8,9 +8,10 @@ from absint import (FnAnalysis, compute_summaries, PathExplosion, affine, aff_st
 
 class Ob:
     """one obligation = one rule instance at one site"""
-    __slots__ = ("rule", "fn", "site", "ok", "msg", "loc", "cfg", "values")
+    __slots__ = ("rule", "fn", "site", "ok", "msg", "loc", "cfg", "values", "only")
 
-    def __init__(self, rule, fn, site, ok, msg, loc="", values=None):
+    def __init__(self, rule, fn, site, ok, msg, loc="", values=None, only=None):
+        self.only = only        # property ids this obligation is a necessary condition of (None: every property the rule is listed under)
         self.rule = rule
         self.fn = fn
         self.site = site
@@ -369,6 +370,87 @@ def _tuple_pat_facts(pat, v):
     return out
 
 
+def _atom_facts(c, pol):
+    """facts carried by one boolean atom `c` holding with polarity `pol`"""
+    out = []
+    if c[0] == "bin" and c[1] in ("==", "!=", "<", "<=", ">", ">="):
+        op = c[1]
+        if not pol:
+            op = {"==": "!=", "!=": "==", "<": ">=", "<=": ">", ">": "<=", ">=": "<"}[op]
+        l, r = _payload(c[2]), _payload(c[3])
+        out.append(("rel", op, l, r))
+        for a, b, o in ((l, r, op), (r, l, {"<": ">", "<=": ">=", ">": "<", ">=": "<="}.get(op, op))):
+            if b[0] == "c":
+                n = b[1]
+                if o == "==":
+                    out.append(("eq", a, n))
+                elif o == "!=":
+                    out.append(("ne", a, n))
+                elif o == ">" and n == 0:
+                    out.append(("ne", a, 0))
+                elif o == ">=" and n == 1:
+                    out.append(("ne", a, 0))
+                elif o == "<" and n == 1:
+                    out.append(("eq", a, 0))
+                elif o == "<=" and n == 0:
+                    out.append(("eq", a, 0))
+                if isinstance(a, tuple) and a[0] == "call" and a[1] == "len" and n == 0 and o in ("==", "!=", ">", "<=", "<", ">="):
+                    emp = {"==": True, "<=": True, "!=": False, ">": False}.get(o)
+                    if emp is not None:
+                        out.append(("empty", a[2][0], emp))
+    elif c[0] == "call" and c[1].endswith("::is_empty") and c[2]:
+        out.append(("empty", c[2][0], pol))
+    elif c[0] == "call" and c[1].endswith("::is_some") and c[2]:
+        out.append(("variant", c[2][0], "core::option::Option::Some", pol))
+    elif c[0] == "call" and c[1].endswith("::is_none") and c[2]:
+        out.append(("variant", c[2][0], "core::option::Option::Some", not pol))
+    else:
+        out.append(("bool", c, pol))
+    return out
+
+
+def _alternatives(c, truth):
+    """disjunctive normal form of `c == truth`: a list of alternatives, each a list of (atom, polarity)"""
+    c = _unmut(c)
+    if c[0] == "un" and c[1] == "!":
+        return _alternatives(c[2], not truth)
+    if c[0] == "bin" and c[1] in ("&&", "||"):
+        conj = (c[1] == "&&") == truth
+        l, r = _alternatives(c[2], truth), _alternatives(c[3], truth)
+        if conj:
+            return [a + b for a in l for b in r][:64]
+        return (l + r)[:64]
+    return [[(c, truth)]]
+
+
+def decision_alternatives(d):
+    """what is known after an `if` decision as a disjunction: a list of alternatives, each a list of facts (see decision_facts).  A decision of
+    another kind has the single alternative decision_facts(d)."""
+    if d.d["how"] != "if":
+        return [decision_facts(d)]
+    out = []
+    for alt in _alternatives(d.d["cond"], d.d["outcome"] is True):
+        fs = []
+        for c, pol in alt:
+            fs.extend(_atom_facts(c, pol))
+        out.append(fs)
+    return out
+
+
+def rejects_because(p, upto, allowed, after=None):
+    """the decision on path p (before event `upto`) every alternative of which contains a fact accepted by `allowed(fact)`; None if there is none.
+    "This exit is taken only for one of the admissible reasons", in whatever boolean form the test is written."""
+    for d in p.decisions(upto):
+        if after is not None and d.seq <= after:
+            continue
+        if d.d.get("folded"):
+            continue
+        alts = decision_alternatives(d)
+        if alts and all(any(allowed(f) for f in alt) for alt in alts):
+            return d
+    return None
+
+
 def decision_facts(d):
     """facts that hold after decision event d, as tuples:
          ('eq', term, n) ('ne', term, n)           comparisons with an integer constant
@@ -382,39 +464,7 @@ def decision_facts(d):
     v = _unmut(d.d["cond"])
     if how == "if":
         for c, pol in _atoms(v, d.d["outcome"] is True):
-            if c[0] == "bin" and c[1] in ("==", "!=", "<", "<=", ">", ">="):
-                op = c[1]
-                if not pol:
-                    op = {"==": "!=", "!=": "==", "<": ">=", "<=": ">", ">": "<=", ">=": "<"}[op]
-                l, r = _payload(c[2]), _payload(c[3])
-                out.append(("rel", op, l, r))
-                for a, b, o in ((l, r, op), (r, l, {"<": ">", "<=": ">=", ">": "<", ">=": "<="}.get(op, op))):
-                    if b[0] == "c":
-                        n = b[1]
-                        if o == "==":
-                            out.append(("eq", a, n))
-                        elif o == "!=":
-                            out.append(("ne", a, n))
-                        elif o == ">" and n == 0:
-                            out.append(("ne", a, 0))
-                        elif o == ">=" and n == 1:
-                            out.append(("ne", a, 0))
-                        elif o == "<" and n == 1:
-                            out.append(("eq", a, 0))
-                        elif o == "<=" and n == 0:
-                            out.append(("eq", a, 0))
-                        if isinstance(a, tuple) and a[0] == "call" and a[1] == "len" and n == 0 and o in ("==", "!=", ">", "<=", "<", ">="):
-                            emp = {"==": True, "<=": True, "!=": False, ">": False}.get(o)
-                            if emp is not None:
-                                out.append(("empty", a[2][0], emp))
-            elif c[0] == "call" and c[1].endswith("::is_empty") and c[2]:
-                out.append(("empty", c[2][0], pol))
-            elif c[0] == "call" and c[1].endswith("::is_some") and c[2]:
-                out.append(("variant", c[2][0], "core::option::Option::Some", pol))
-            elif c[0] == "call" and c[1].endswith("::is_none") and c[2]:
-                out.append(("variant", c[2][0], "core::option::Option::Some", not pol))
-            else:
-                out.append(("bool", c, pol))
+            out.extend(_atom_facts(c, pol))
     elif how == "match":
         arms = (d.node or {}).get("arms") or []
         i = d.d["outcome"]
@@ -446,6 +496,17 @@ def decision_facts(d):
         if f[0] == "variant" and f[2] in ("core::option::Option::Some", "core::option::Option::None"):
             other = "core::option::Option::None" if f[2].endswith("Some") else "core::option::Option::Some"
             more.append(("variant", f[1], other, not f[3]))
+    # `s.first()` / `s.last()` / `s.get(0)` (or its payload-level form s[0]) being Some ⇔ the sequence is not empty
+    for f in out + more:
+        if f[0] == "variant" and f[2] == "core::option::Option::Some":
+            t = _unmut(f[1])
+            seq = None
+            if isinstance(t, tuple) and t and t[0] == "idx" and len(t) > 2 and t[2] == ("c", 0):
+                seq = t[1]
+            elif isinstance(t, tuple) and t and t[0] == "call" and t[1].endswith(("::first", "::last", "::first_mut", "::last_mut", "::split_first", "::split_last")) and len(t[2]) == 1:
+                seq = t[2][0]
+            if seq is not None:
+                more.append(("empty", seq, not f[3]))
     return out + more
 
 
